@@ -135,6 +135,28 @@ Theorem C20_chain_ok_rejects : forall c, chain_ok c None = true ->
 Proof. exact chain_ok_rejects. Qed.
 Print Assumptions C20_chain_ok_rejects.
 
+(* ---- using a loaded configuration does not change it ------------------------------------------ *)
+
+(* The consumers of an accepted configuration (the start-block computation, run any number of times on
+   the loaded values) are functions of the values: the configuration afterwards is the configuration
+   loaded, and every run returns the same result.  This is the specification the runner checks on the
+   real config objects (deep comparison by value with a snapshot taken right after loading). *)
+Theorem C20_start_block_pure : forall cfg n,
+  fst (use_chain cfg n) = cfg /\
+  List.length (snd (use_chain cfg n)) = n /\
+  (forall r, In r (snd (use_chain cfg n)) -> r = calc_start (cc_start cfg) (cc_interval cfg)).
+Proof. exact start_block_pure. Qed.
+Print Assumptions C20_start_block_pure.
+
+Theorem C20_use_ok_model : forall c n, use_ok (model_chain c) (model_after (model_chain c) n) = true.
+Proof. exact use_ok_model. Qed.
+Print Assumptions C20_use_ok_model.
+
+Theorem C20_use_ok_sound : forall cfg r af, use_ok (Some (cfg, r)) (Some af) = true ->
+  ca_cfg af = cfg /\ ca_rest_same af = true /\ (forall x, In x (ca_calcs af) -> x <> Panic).
+Proof. exact use_ok_sound. Qed.
+Print Assumptions C20_use_ok_sound.
+
 (* ---- substrateNetwork (int64 -> uint16) ------------------------------------------------------ *)
 
 Theorem C20_net_accept_iff : forall v p, parse_net v = Some p <-> (0 <= v <= 65535 /\ p = v).
@@ -205,6 +227,34 @@ Theorem C20_merge_missing_chain_errors : forall locals shared c i,
   In c locals -> id_of c = Some i -> find_chain i shared = None -> process locals shared = None.
 Proof. exact process_missing_chain_errors. Qed.
 Print Assumptions C20_merge_missing_chain_errors.
+
+(* Chain ids are compared AS WRITTEN: compareDomainID holds exactly for equal numbers (no narrowing to
+   uint8, no truncation of fractions) ... *)
+Theorem C20_compare_domain_id_exact : forall a b, compare_domain_id a b = true <-> a = b.
+Proof. exact compare_domain_id_exact. Qed.
+Print Assumptions C20_compare_domain_id_exact.
+
+(* ... so every local chain of a configuration that loads was merged with a shared entry carrying the
+   SAME id, and a local chain whose id no shared entry carries makes the load fail ... *)
+Theorem C20_merge_ids_exact : forall locals shared outs, process locals shared = Some outs ->
+  forall c, In c locals -> exists i s, id_of c = Some i /\ find_chain i shared = Some s /\
+                                         In s shared /\ id_of s = Some i.
+Proof. exact process_ids_exact. Qed.
+Print Assumptions C20_merge_ids_exact.
+
+Theorem C20_find_chain_none : forall i shared,
+  find_chain i shared = None -> forall s, In s shared -> id_of s <> Some i.
+Proof. exact find_chain_none. Qed.
+Print Assumptions C20_find_chain_none.
+
+(* ... and the judge rejects an outcome in which a local chain whose id no shared entry carries shows
+   any setting it did not write itself (nothing is inherited from a chain with another id). *)
+Theorem C20_merge_ok_ids_exact : forall locals shared outs, merge_ok locals shared (Some outs) = true ->
+  forall n c o, nth_error locals n = Some c -> nth_error outs n = Some o ->
+    (forall i, id_of c = Some i -> (forall s, In s shared -> id_of s <> Some i) ->
+       forall k, has k o = true -> has k c = true).
+Proof. exact merge_ok_ids_exact. Qed.
+Print Assumptions C20_merge_ok_ids_exact.
 
 Theorem C20_process_none_iff : forall locals shared,
   process locals shared = None <-> loadable locals shared = false.
@@ -283,6 +333,16 @@ Example C20_nonvacuous :
   process [[("id", JNum 1); ("type", JStr "evm"); ("a", JNum 3)]]
           [[("id", JNum 1); ("a", JNum 9); ("b", JBool true)]]
   = Some [[("id", JNum 1); ("type", JStr "evm"); ("a", JNum 3); ("b", JBool true)]] /\
+  process [[("id", JNum 257); ("type", JStr "evm")]] [[("id", JNum 1); ("a", JNum 9)]] = None /\
+  process [[("id", JFrac 3 2); ("type", JStr "evm")]] [[("id", JNum 1); ("a", JNum 9)]; [("id", JNum 2)]] = None /\
+  process [[("id", JNum (-255)); ("type", JStr "evm")]] [[("id", JNum 1)]; [("id", JNum (-255)); ("b", JStr "x")]]
+  = Some [[("id", JNum (-255)); ("type", JStr "evm"); ("b", JStr "x")]] /\
+  merge_ok [[("id", JNum 257); ("type", JStr "evm")]] [[("id", JNum 1); ("a", JNum 9)]]
+           (Some [[("id", JNum 257); ("type", JStr "evm"); ("a", JNum 9)]]) = false /\
+  use_ok (Some (mkChainCfg 5 10 200, Val 200)) (Some (mkAfter (mkChainCfg 0 10 200) true [Panic])) = false /\
+  use_ok (Some (mkChainCfg 5 10 203, Val 200)) (Some (mkAfter (mkChainCfg 3 10 203) true [Val 201])) = false /\
+  use_ok (model_chain (mkChainIn Btc false None None (Some 13)))
+         (model_after (model_chain (mkChainIn Btc false None None (Some 13))) 2) = true /\
   load_strings [(Required, Some "dGVzdGtleQ=="); (Defaulted "out.log", None); (Plain, Some "http://h/p?a=b&c_d=SYG_X")]
   = Some ["dGVzdGtleQ=="; "out.log"; "http://h/p?a=b&c_d=SYG_X"] /\
   load_strings [(Required, Some ""); (Plain, Some "x")] = None /\
